@@ -8,6 +8,7 @@ import (
 
 	netty "github.com/go-netty/go-netty"
 	"github.com/go-netty/go-netty/codec/format"
+	"github.com/go-netty/go-netty/codec/frame"
 	"github.com/go-netty/go-netty/utils"
 	"github.com/go-netty/go-netty/verifsim/simnet"
 	"github.com/go-netty/go-netty/verifsim/simrt"
@@ -92,8 +93,127 @@ func (s *strictSink) HandleException(ctx netty.ExceptionContext, ex netty.Except
 	ctx.HandleException(ex)
 }
 
+// runC08Chunk: the variable-length codec ("whatever one read delivers, at most max bytes"). It has no frame
+// boundaries to get wrong; what it must keep is the maximum, the byte stream itself (nothing invented, lost or
+// repeated) and the end-of-stream behaviour.
+//
+//go:norace
+func runC08Chunk(e *Env) {
+	max := e.PSize([]int{100, 64, 1000, 1500, 128, 5000, 1}, 6000)
+	total := e.P(4*max + 2)
+	if e.P(3) == 2 {
+		total = 3*max + e.P(3*max+1) // long enough for several buffer-filling reads in a row
+	}
+	stream := make([]byte, total)
+	rng := simrt.NewRng(uint64(total)*7919 + uint64(max))
+	for i := range stream {
+		stream[i] = byte(rng.Next())
+	}
+	var endErr error
+	endName := "EOF"
+	switch e.P(3) {
+	case 0:
+		endErr = io.EOF
+	case 1:
+		endErr, endName = simnet.ErrReset, "reset"
+	case 2:
+		endErr, endName = io.EOF, "timeout-then-EOF"
+	}
+	rig := e.NewRig(ChanCfg{}, false)
+	rig.Conn.Frag = e.P(4)
+	sink := &strictSink{env: e, conn: rig.Conn, Limit: total + 3}
+	pl := netty.NewPipeline()
+	pl.AddLast(frame.VariableLengthCodec(max), sink)
+	ch := netty.NewChannel()(1, rig.Ctx, pl, rig.Conn, rig.X)
+	sink.ch = ch
+	bursts := []int{1, max / 2, max, max + 1, 2 * max, 3*max + 5, 7}
+	e.Describe("decoder=variable-length(max=%d) stream: %d bytes, ends with %s, read fragmentation mode %d", max, total, endName, rig.Conn.Frag)
+	e.Go("main", func() {
+		pl.ServeChannel(ch)
+		e.Go("peer", func() {
+			rest := stream
+			for len(rest) > 0 {
+				e.Step()
+				k := bursts[e.P(len(bursts))]
+				if k < 1 {
+					k = 1
+				}
+				if k > len(rest) {
+					k = len(rest)
+				}
+				rig.Conn.Feed(rest[:k])
+				rest = rest[k:]
+				if e.P(3) == 0 {
+					// let the channel drain what is there: the next burst meets an idle decoder
+					for w := 0; w < 6; w++ {
+						e.Step()
+					}
+				}
+			}
+			e.Step()
+			if endName == "timeout-then-EOF" {
+				rig.Conn.EndInput(simnet.ErrTimeout, true)
+				e.Step()
+				e.Step()
+			}
+			rig.Conn.EndInput(endErr, false)
+		})
+	})
+	end := e.RunToEnd()
+	cls := "variable-length"
+	var got []byte
+	prev := 0
+	for i, f := range sink.Frames {
+		if f.Err != nil {
+			continue
+		}
+		if len(f.Data) > max {
+			e.Violate("respects-maximum", cls, "delivery %d is a %d-byte message; the configured maximum is %d", i, len(f.Data), max)
+			break
+		}
+		if pulled := f.Consumed - prev; pulled > max {
+			e.Violate("bounded-read", cls, "delivery %d pulled %d bytes from the transport; the configured limit is %d", i, pulled, max)
+			break
+		}
+		prev = f.Consumed
+		got = append(got, f.Data...)
+	}
+	if len(got) > len(stream) || !bytes.Equal(got, stream[:len(got)]) {
+		e.Violate("only-complete-frames", cls+",wrong-content", "the delivered messages (%d bytes in %d deliveries) are not a prefix of the %d bytes received: first difference at offset %d", len(got), len(sink.Frames), len(stream), firstDiff(got, stream))
+	}
+	if sink.Exceeded {
+		e.Violate("no-endless-stream", cls, "more than %d messages were delivered for a %d-byte stream: the decoder keeps delivering after the stream ended", sink.Limit, len(stream))
+	}
+	for _, ex := range sink.Ex {
+		if _, ok := ex.(runtime.Error); ok {
+			e.Violate("no-runtime-fault", cls, "decoder failed with a runtime fault: %v", ex)
+		}
+	}
+	if (end == simrt.EndQuiescent || end == simrt.EndAllDone) && !sink.Exceeded {
+		if ch.IsActive() {
+			e.Violate("closed-peer-closes-channel", cls, "the peer ended the stream (%s) but the channel is still active at quiescence", endName)
+		}
+		if endName != "reset" && len(sink.Ex) <= 1 && len(got) != len(stream) {
+			// every byte that arrived before a clean end of stream was read by somebody: it must have been delivered
+			e.Violate("only-complete-frames", cls+",bytes-lost", "%d of the %d bytes received before the end of the stream were delivered", len(got), len(stream))
+		}
+	}
+	e.Count("kind:variable-length", 1)
+	e.Count("eofs_fired", rig.Conn.Fired.EOFs)
+	e.Count("resets_fired", rig.Conn.Fired.Resets)
+	e.Count("timeouts_fired", rig.Conn.Fired.Timeouts)
+	e.Count("decoder_exceptions", len(sink.Ex))
+	e.Count("chunk_deliveries", len(sink.Frames))
+	e.Go("teardown", func() { ch.Close(fmt.Errorf("teardown")) })
+	e.Sim.Run()
+}
+
 //go:norace
 func runC08(e *Env) {
+	if e.P(8) == 7 {
+		runC08Chunk(e)
+		return
+	}
 	spec := drawFrameSpec(e)
 	mode := e.P(3) // 0 valid frames + cut, 1 random bytes, 2 mutated header
 	var stream []byte
